@@ -38,6 +38,12 @@ def bitField : List Char → Option (Bool × List Char)
   | '1' :: r => some (true, r)
   | _ => none
 
+/-- what an int / float / char literal renders as: its source text, a char without the quotes -/
+def litRendered (src : Str) : Str :=
+  match src with
+  | '\'' :: r => (match r.reverse with | '\'' :: m => m.reverse | _ => src)
+  | _ => src
+
 partial def parseAttrs (cs : List Char) (acc : List TAttr) : Option (List TAttr × List Char) :=
   match cs with
   | '>' :: r => some (acc.reverse, r)
@@ -74,6 +80,17 @@ partial def parseAttrs (cs : List Char) (acc : List TAttr) : Option (List TAttr 
     let (n, r) ← hexField r
     let (v, r) ← hexField r
     parseAttrs r (.styleKV d n v :: acc)
+  -- non-string literals: `is_inert_element` only accepts `Lit::Str`, `attribute_value` passes any literal on
+  -- as the expression it is, so for the macro `name=false` is `name={false}` and `name=2` is `name={2}`
+  -- (tachys renders numbers / chars with `to_string()`)
+  | 'L' :: r => do
+    let (n, r) ← hexField r
+    let (b, r) ← bitField r
+    parseAttrs r (.boolDyn n b :: acc)
+  | 'N' :: r => do
+    let (n, r) ← hexField r
+    let (v, r) ← hexField r
+    parseAttrs r (.plain true n (litRendered v) :: acc)
   | _ => none
 
 partial def parseNodes (top : Bool) (cs : List Char) (acc : List Tmpl) : Option (List Tmpl × List Char) :=
@@ -115,7 +132,7 @@ they tokenise like unknown HTML elements: the oracle parses them as custom eleme
 
 def svgFamily : List Str :=
   [['s','v','g'], ['g'], ['c','i','r','c','l','e'], ['r','e','c','t'], ['p','a','t','h'],
-   ['m','a','t','h'], ['m','r','o','w'], ['m','i'], ['m','o'], ['m','n']]
+   ['m','a','t','h'], ['m','r','o','w'], ['m','i'], ['m','o'], ['m','n'], ['p','r','e']]
 
 def renTag (t : Str) : Str := if svgFamily.contains t then 'x' :: '-' :: t else t
 
